@@ -419,7 +419,7 @@ func TestVerifC37Utf8(t *testing.T) {
 		vfC37Row(t, []byte{byte(b0)}, "utf8:row2-exhaustive")
 	}
 	// 3- and 4-byte strings: exhaustive in the last byte, earlier bytes from the boundary values of every
-	// lead class / accept range (thorough: every second byte for every lead >= 0xE0)
+	// lead class / accept range (thorough: ALL 3-byte strings)
 	leads := []byte{0x7f, 0x80, 0xbf, 0xc0, 0xc1, 0xc2, 0xdf, 0xe0, 0xe1, 0xec, 0xed, 0xee, 0xef, 0xf0, 0xf1, 0xf3, 0xf4, 0xf5, 0xff}
 	seconds := []byte{0x00, 0x41, 0x7f, 0x80, 0x8f, 0x90, 0x9f, 0xa0, 0xbf, 0xc0, 0xff}
 	for _, b0 := range leads {
@@ -430,9 +430,10 @@ func TestVerifC37Utf8(t *testing.T) {
 		}
 	}
 	if thorough {
-		for b0 := 0xe0; b0 <= 0xf7; b0++ {
+		// all 3-byte strings exhaustively
+		for b0 := 0; b0 < 256; b0++ {
 			for b1 := 0; b1 < 256; b1++ {
-				vfC37Row(t, []byte{byte(b0), byte(b1)}, "utf8:row3-all-second-bytes")
+				vfC37Row(t, []byte{byte(b0), byte(b1)}, "utf8:row3-exhaustive")
 			}
 		}
 	}
